@@ -6,7 +6,7 @@ open Lean Pug.Sys.Conc
 /-- does the document call a function the executor model does not carry (the module's `asset`)? -/
 partial def mentionsAsset (j : Json) : Bool :=
   match j with
-  | .obj kvs => kvs.toList.any fun (k, v) => (k == "n" && v == .str "asset") || mentionsAsset v
+  | .obj kvs => kvs.toList.any fun (k, v) => (k == "n" && (v == .str "asset" || v == .str "debug" || v == .str "vpWho")) || mentionsAsset v
   | .arr xs => xs.any mentionsAsset
   | _ => false
 
@@ -17,7 +17,7 @@ def runConcCase (c : Json) : Json × Json :=
   let jobs := jarr c "jobs"
   let debug := jbool c "debug"
   let alone : List Json := jobs.map fun j =>
-    if mentionsAsset (jget j "doc") then clsOut "model-domain" "asset() is not in the executor model" else
+    if mentionsAsset (jget j "doc") then clsOut "model-domain" "asset() / debug() are not in the executor model" else
     match (jarr j "doc").mapM decNode with
     | .error e => clsOut "model-domain" ("decode: " ++ e)
     | .ok doc => renderModel doc (jget j "data") [] debug
